@@ -52,6 +52,9 @@ RET_SCALAR = {"sql", "index", "count", "is_type", "startswith", "endswith", "low
               "join_", "text", "to_py", "is_string", "__len__", "__contains__", "__eq__", "isdisjoint", "issubset",
               "difference", "intersection", "union_", "__sub__"}
 RET_SAME = {"assert_is"}
+# sqlglot properties that return str / bool / int
+SCALAR_ATTRS = {"alias_or_name", "alias", "name", "output_name", "key", "is_string", "is_number", "is_int", "is_star",
+                "alias_column_names", "named_selects", "column_alias_or_name", "table_name", "db", "catalog"}
 # external functions that mutate their first argument in place
 EXTERNAL_INPLACE = {"qualify", "pushdown_projections", "normalize_identifiers", "quote_identifiers",
                     "quote_identifiers_func", "annotate_types", "qualify_columns", "qualify_tables"}
@@ -97,17 +100,19 @@ def fs(*tags):
 
 
 class Eff:
-    __slots__ = ("writes", "execs", "sess")
+    __slots__ = ("writes", "execs", "sess", "wops")
 
     def __init__(self):
         self.writes = set()   # (chain tuple, root, kind, where)
         self.execs = False
         self.sess = 0
+        self.wops = set()     # kinds of the wrappers applied to the receiver itself (or to GroupedData's private copy)
 
     def merge(self, o: "Eff"):
         self.writes |= o.writes
         self.execs = self.execs or o.execs
         self.sess += o.sess
+        self.wops |= o.wops
 
 
 class Fn:
@@ -390,20 +395,15 @@ class Analyzer:
         if key in self.memo:
             return self.memo[key]
         if key in self.stack:
-            raise Untranslatable(f"recursion through {fn.where}")
+            if any(v for v in env0.values()):
+                raise Untranslatable(f"recursion through {fn.where} with DataFrame-related arguments")
+            return (E, Eff())   # least fixpoint: the recursive call adds no effect beyond the direct ones
         if len(self.stack) > 40:
             raise Untranslatable("call depth > 40 at " + fn.where)
         check_decorators(fn)
         self.stack.append(key)
         st = {"fn": fn, "env": dict(env0), "g": g, "eff": Eff(), "ret": set(), "imports": {}}
-        for _ in range(12):
-            before = {k: v for k, v in st["env"].items()}
-            nret = len(st["ret"])
-            self.block(st, fn.node.body)
-            if before == st["env"] and nret == len(st["ret"]):
-                break
-        else:
-            raise Untranslatable("no fixpoint in " + fn.where)
+        self.block(st, fn.node.body)
         self.stack.pop()
         res = (frozenset(st["ret"]), st["eff"])
         self.memo[key] = res
@@ -448,14 +448,31 @@ class Analyzer:
         for s in stmts:
             self.stmt(st, s)
 
-    def assign_to(self, st, tgt, v, where):
+    @staticmethod
+    def join_env(a, b):
+        out = dict(a)
+        for k, v in b.items():
+            out[k] = out.get(k, E) | v
+        return out
+
+    def loop(self, st, body_fn):
+        """run a loop body to a fixpoint of the environment (flow-sensitive inside the body)"""
+        for _ in range(12):
+            before = dict(st["env"])
+            body_fn()
+            st["env"] = self.join_env(before, st["env"])
+            if st["env"] == before:
+                return
+        raise Untranslatable("no fixpoint in a loop of " + st["fn"].where)
+
+    def assign_to(self, st, tgt, v, where, weak=False):
         if isinstance(tgt, ast.Name):
-            st["env"][tgt.id] = st["env"].get(tgt.id, E) | v
+            st["env"][tgt.id] = (st["env"].get(tgt.id, E) | v) if weak else v
         elif isinstance(tgt, (ast.Tuple, ast.List)):
             for e in tgt.elts:
-                self.assign_to(st, e, v | self.elems(v), where)
+                self.assign_to(st, e, v | self.elems(v), where, weak)
         elif isinstance(tgt, ast.Starred):
-            self.assign_to(st, tgt.value, v, where)
+            self.assign_to(st, tgt.value, v, where, weak)
         elif isinstance(tgt, ast.Attribute):
             xt = self.ev(st, tgt.value)
             for t in xt:
@@ -497,18 +514,31 @@ class Analyzer:
                 self.assign_to(st, s.target, self.ev(st, s.value), where)
         elif isinstance(s, ast.AugAssign):
             v = self.ev(st, s.value) | self.ev(st, s.target)
-            self.assign_to(st, s.target, v, where)
+            self.assign_to(st, s.target, v, where, weak=True)
         elif isinstance(s, ast.Return):
             if s.value is not None:
                 st["ret"] |= self.ev(st, s.value)
-        elif isinstance(s, (ast.If, ast.While)):
+        elif isinstance(s, ast.If):
             self.ev(st, s.test)
+            env0 = dict(st["env"])
             self.block(st, s.body)
+            env1 = st["env"]
+            st["env"] = dict(env0)
+            self.block(st, s.orelse)
+            st["env"] = self.join_env(env1, st["env"])
+        elif isinstance(s, ast.While):
+            def body():
+                self.ev(st, s.test)
+                self.block(st, s.body)
+            self.loop(st, body)
             self.block(st, s.orelse)
         elif isinstance(s, ast.For):
-            it = self.ev(st, s.iter)
-            self.assign_to(st, s.target, self.elems(it), where)
-            self.block(st, s.body)
+            def body():
+                it = self.ev(st, s.iter)
+                self.assign_to(st, s.target, self.elems(it), where)
+                self.block(st, s.body)
+            self.ev(st, s.iter)
+            self.loop(st, body)
             self.block(st, s.orelse)
         elif isinstance(s, ast.With):
             for it in s.items:
@@ -517,9 +547,16 @@ class Analyzer:
                     self.assign_to(st, it.optional_vars, v, where)
             self.block(st, s.body)
         elif isinstance(s, ast.Try):
+            env0 = dict(st["env"])
             self.block(st, s.body)
+            acc = self.join_env(env0, st["env"])
             for h in s.handlers:
+                st["env"] = dict(acc)
+                if h.name:
+                    st["env"][h.name] = E
                 self.block(st, h.body)
+                acc = self.join_env(acc, st["env"])
+            st["env"] = acc
             self.block(st, s.orelse)
             self.block(st, s.finalbody)
         elif isinstance(s, ast.Raise):
@@ -564,8 +601,16 @@ class Analyzer:
             return frozenset(out)
         if isinstance(n, ast.Subscript):
             xt = self.ev(st, n.value)
-            self.ev(st, n.slice)
-            return self.elems(xt)
+            sl = self.ev(st, n.slice)
+            out = set()
+            for t in xt:
+                if t[0] in ("df", "shr"):
+                    out |= self.call_method(st, t, "__getitem__", [sl], {}, E, where)
+                elif t[0] in ("gd", "na"):
+                    raise Untranslatable(f"{where}: subscript on a helper object")
+                else:
+                    out |= self.elems(fs(t))
+            return frozenset(out)
         if isinstance(n, ast.Slice):
             for x in (n.lower, n.upper, n.step):
                 if x is not None:
@@ -637,6 +682,8 @@ class Analyzer:
             return {t}
         if k in ("attr", "in"):
             if k == "attr" and t[2] in U.immutable_attrs:
+                return set()
+            if a in SCALAR_ATTRS:
                 return set()
             return {("in", t[1], t[2])}
         if k == "box":
@@ -730,6 +777,8 @@ class Analyzer:
                 w = U.resolve("DF", "_convert_leaf_to_cte")
                 _, eff = self.analyse(w, self.bind(w, fs(recv), [], {}, E), g)
                 st["eff"].merge(eff)
+                if k == "df" and root == "self":
+                    st["eff"].wops.add(op)
                 if k == "df":
                     g2 = (root, (g[1] if g[0] == root else ()) + (op,))
                 else:
@@ -753,6 +802,8 @@ class Analyzer:
                 w = U.resolve("DF", "_convert_leaf_to_cte")
                 _, eff = self.analyse(w, self.bind(w, fs((recv[1], recv[2])), [], {}, E), g)
                 st["eff"].merge(eff)
+                if recv[2] == "self":
+                    st["eff"].wops.add(op)
             ret, eff = self.analyse(f, self.bind(f, fs(recv), args, kws, star), g)
             st["eff"].merge(eff)
             return set(ret)
@@ -821,19 +872,20 @@ class Analyzer:
                 if any(t[0] in ("df", "shr", "gd", "na") for t in alltags) and m not in ("append", "extend", "add", "format", "add_row", "join"):
                     raise Untranslatable(f"{where}: a DataFrame is passed to foreign method .{m}")
                 keep = frozenset(t for t in self.boxify(alltags) if t[0] == "box")
-                if keep and isinstance(f.value, ast.Name):
+                stores = m in ("append", "extend", "add", "set", "update", "insert", "setdefault")
+                if keep and stores and isinstance(f.value, ast.Name):
                     st["env"][f.value.id] = st["env"].get(f.value.id, E) | keep
-                return keep if m not in ("append", "extend", "add", "set", "update", "insert", "remove") else E
+                return E if (stores or m == "remove") else keep
             for t in xt:
                 k = t[0]
-                if k == "raw":
+                if k == "bound" and m == "__wrapped__":
                     # X.meth.__wrapped__(recv, ...): the body without the wrapper
                     if not args:
                         raise Untranslatable(f"{where}: __wrapped__ call without receiver")
                     for r in args[0]:
                         if r[0] not in ("df", "shr"):
                             raise Untranslatable(f"{where}: __wrapped__ receiver is {r}")
-                        out |= self.call_method(st, r, t[1], args[1:], kws, star, where, via_wrapper=False)
+                        out |= self.call_method(st, r, t[2], args[1:], kws, star, where, via_wrapper=False)
                 elif k in ("df", "shr", "gd", "na"):
                     fam = "DF" if k in ("df", "shr") else ("GD" if k == "gd" else t[3])
                     if self.U.resolve(fam, m) is not None or (fam == "DF" and m == "copy"):
@@ -946,7 +998,7 @@ class Analyzer:
 
 # ---------------------------------------------------------------------------------------------------------------
 
-RET_KIND = {"Self": "RDataFrame", "DF": "RDataFrame", "GROUP_DATA": "RGrouped"}
+RET_KIND = {"Self": "RetDF", "DF": "RetDF", "GROUP_DATA": "RetGrouped"}
 
 
 def df_param_tags(fn: Fn):
@@ -964,14 +1016,19 @@ def summarize(repo: str):
     A = Analyzer(U)
     entries = []
 
-    def finish(name, fn, op, ret, eff, rk=None, public=True):
+    def finish(name, fn, op, ret, eff, rk=None, public=True, res=None):
         ann = ast.unparse(fn.node.returns) if fn.node.returns is not None else ""
-        rkind = rk or RET_KIND.get(ann.strip("'\""), "ROther")
+        rkind = rk or RET_KIND.get(ann.strip("'\""), "RetOther")
+        if rkind == "RetOther" and any(t[0] in ("df", "shr") for t in ret):
+            rkind = "RetDF"      # returns a DataFrame although the annotation does not say so
+        if rkind == "RetOther" and any(t[0] == "gd" for t in ret):
+            rkind = "RetGrouped"
         ws = {}
         for chain, root, kind, where in eff.writes:
             ws.setdefault((chain, root, kind), []).append(where)
         may_self = any(t == ("df", "self") for t in ret)
-        entries.append({"name": name, "op": op, "writes": sorted(ws.items()), "exec": eff.execs, "ret": rkind,
+        entries.append({"name": name, "op": op, "wops": sorted(eff.wops, key=OPK.index), "res": res if res else op,
+                        "writes": sorted(ws.items()), "exec": eff.execs, "ret": rkind,
                         "returns_self": may_self, "public": public, "where": fn.where,
                         "hash": py2v.src_hash(fn.node, fn.src), "session_writes": eff.sess})
 
@@ -1020,7 +1077,10 @@ def summarize(repo: str):
                 if gd[0] != "gd":
                     raise Untranslatable(f"{maker} returns {gd}")
                 out |= A.call_method(st, gd, name, [], {}, E, f.where)
-            finish(f"{maker}.{name}", f, op_of(mk, "operation"), out, st["eff"], rk="RDataFrame")
+            gop = op_of(U.resolve("GD", "agg"), "group_operation")
+            if gop is None:
+                raise Untranslatable("GroupedData.agg is no longer decorated with @group_operation")
+            finish(f"{maker}.{name}", f, op_of(mk, "operation"), out, st["eff"], rk="RetDF", res=gop)
     # d.na.m(...) / d.stat.m(...)
     for acc, fam in (("na", "NA"), ("stat", "STAT")):
         accf = U.resolve("DF", acc)
@@ -1033,7 +1093,15 @@ def summarize(repo: str):
                 if h[0] != "na":
                     raise Untranslatable(f"{acc} returns {h}")
                 out |= A.call_method(st, h, name, [], {}, E, f.where)
-            finish(f"{acc}.{name}", f, None, out, st["eff"])
+            # the helper method must be `return self.df.<m>(...)`; the result carries <m>'s decorator kind
+            body = [x for x in f.node.body if not (isinstance(x, ast.Expr) and isinstance(x.value, ast.Constant))]
+            inner = None
+            if len(body) == 1 and isinstance(body[0], ast.Return) and isinstance(body[0].value, ast.Call) \
+                    and isinstance(body[0].value.func, ast.Attribute) and dotted(body[0].value.func.value) == "self.df":
+                inner = U.resolve("DF", body[0].value.func.attr)
+            if inner is None:
+                raise Untranslatable(f"{f.where}: helper method is not `return self.df.<method>(...)`")
+            finish(f"{acc}.{name}", f, None, out, st["eff"], res=op_of(inner, "operation"))
     return U, entries
 
 
@@ -1138,6 +1206,7 @@ def generate(repo: str):
             r = "RSelf" if root == "self" else "ROther"
             ws.append(f"mkW [{'; '.join(chain)}] {r} {kind}")
         rows.append(f"  mkM {strlit(e['name'])} {('(Some ' + e['op'] + ')') if e['op'] else 'None'} "
+                    f"[{'; '.join(e['wops'])}] {('(Some ' + e['res'] + ')') if e['res'] else 'None'} "
                     f"[{'; '.join(ws)}] {'true' if e['exec'] else 'false'} {e['ret']} "
                     f"{'true' if e['returns_self'] else 'false'}")
     L.append("Definition methods : list minfo := [\n" + ";\n".join(rows) + "\n].")
@@ -1151,6 +1220,7 @@ def generate(repo: str):
     for e in entries:
         facts.append({"name": "summary:" + e["name"], "from": e["where"], "hash": e["hash"], "op": e["op"],
                       "executes": e["exec"], "ret": e["ret"], "returns_self": e["returns_self"],
+                      "wrapper_ops": e["wops"], "result_op": e["res"],
                       "writes": [{"guard": list(c), "root": r, "target": k, "at": sorted(set(w))[:4]}
                                  for (c, r, k), w in e["writes"]]})
     return "\n".join(L) + "\n", facts, entries
@@ -1160,5 +1230,5 @@ if __name__ == "__main__":
     import sys
     text, facts, entries = generate(sys.argv[1] if len(sys.argv) > 1 else "/repo")
     for e in entries:
-        print(e["name"], e["op"], "exec" if e["exec"] else "", e["ret"], "RETSELF" if e["returns_self"] else "",
+        print(e["name"], e["op"], e["wops"], e["res"], "exec" if e["exec"] else "", e["ret"], "RETSELF" if e["returns_self"] else "",
               [(c, r, k) for (c, r, k), _ in e["writes"]])
